@@ -198,7 +198,22 @@ func (w *World) sendReal(ch *xibctesting.TestChain, dst string, amount, fee int6
 	if rsp.VmError != "" {
 		return packettypes.Packet{}, errors.New(rsp.VmError)
 	}
-	return latestPacket(ch, ctx), nil
+	// the packet is the payload of the PacketSent log of the packet contract
+	for _, lg := range rsp.Logs {
+		if common.HexToAddress(lg.Address) != packetcontract.PacketContractAddress {
+			continue
+		}
+		vals, err := packetcontract.PacketContract.ABI.Unpack(packettypes.PacketSendEvent, lg.Data)
+		if err != nil || len(vals) != 1 {
+			continue
+		}
+		var p packettypes.Packet
+		if err := p.ABIDecode(vals[0].([]byte)); err != nil {
+			return p, err
+		}
+		return p, nil
+	}
+	return packettypes.Packet{}, errors.New("no PacketSent log")
 }
 
 // ---------------------------------------------------------------------------------------------
@@ -248,7 +263,7 @@ func contractFingerprint(ch *xibctesting.TestChain, ctx sdk.Context) []byte {
 			h.Write(e.v[:])
 		}
 		h.Write([]byte(ch.App.BankKeeper.GetAllBalances(ctx, sdk.AccAddress(c.Bytes())).String()))
-		h.Write(ch.App.EvmKeeper.GetCodeHash(ctx, c).Bytes())
+		h.Write(ch.App.EvmKeeper.GetAccountOrEmpty(ctx, c).CodeHash)
 	}
 	return h.Sum(nil)
 }
